@@ -32,23 +32,27 @@ class AtomBase:
     def __neg__(self):
         return AtomBase(-self.value)
 
+    def _number(self):
+        # a truth value used as a number is 1 or 0; numpy would evaluate sin(True) in half precision
+        return float(self.value) if isinstance(self.value,(bool,np.bool_)) else self.value
+
     def log(self):
-        return AtomBase(np.log(self.value))
+        return AtomBase(np.log(self._number()))
 
     def log10(self):
-        return AtomBase(np.log10(self.value))
+        return AtomBase(np.log10(self._number()))
 
     def sqrt(self):
-        return AtomBase(np.sqrt(self.value))
+        return AtomBase(np.sqrt(self._number()))
 
     def sin(self):
-        return AtomBase(np.sin(self.value))
+        return AtomBase(np.sin(self._number()))
 
     def cos(self):
-        return AtomBase(np.cos(self.value))
+        return AtomBase(np.cos(self._number()))
 
     def tan(self):
-        return AtomBase(np.tan(self.value))
+        return AtomBase(np.tan(self._number()))
 
     def logical_and(self, other):
         left, right = self.value, other.value   # both operands must exist (no short-circuit over a missing one)
